@@ -430,6 +430,7 @@ def run_val(cx, derived=True):
     valdt.run_dt(run)
     from checks import valhex
     valhex.run_hex(run)
+    from checks import valbin; valbin.run_bin(run)
     from checks import valinst; valinst.run_inst(run)
     return run
 
